@@ -17,21 +17,21 @@ Fixpoint ser_data (f : list Z) (m : pmode) (args : list arg) : list Z :=
   | c :: f' =>
     match m with
     | PLit =>
-      match classify c with
+      match classify_fx true c with
       | CNul => []
       | CPct => ser_data f' (PDir pd_init) args
       | _ => ser_data f' PLit args
       end
     | PDir d =>
       let '(a, args') := next_arg args in
-      match classify c with
+      match classify_fx true c with
       | CFlag => ser_data f' (PDir (pd_add d [c])) args
       | CDot => ser_data f' (PDir (mkP (p_acc d ++ [c]) (p_l d) true (p_plen d))) args
       | CDigit =>
         ser_data f' (PDir (mkP (p_acc d ++ [c]) (p_l d) (p_prec d)
                                (if p_prec d then p_plen d * 10 + (c - 48) else p_plen d))) args
       | CStar => scalar_bytes LF_SIZEOF_INT a ++
-                 ser_data f' (PDir (pd_add d (dec (to_signed (8 * LF_SIZEOF_INT) (arg_raw a))))) args'
+                 ser_data f' (PDir (pd_star d (to_signed (8 * LF_SIZEOF_INT) (arg_raw a)))) args'
       | CEll => ser_data f' (PDir (mkP (p_acc d ++ [c]) (p_l d + 1) (p_prec d) (p_plen d))) args
       | CZee | CTee | CJay => ser_data f' (PDir (mkP (p_acc d ++ [c]) 2 (p_prec d) (p_plen d))) args
       | CInt => scalar_bytes (int_size d) a ++ ser_data f' PLit args'
@@ -64,7 +64,7 @@ Fixpoint wf_go (f : list Z) (m : pmode) (args : list arg) : bool :=
     if (c =? 0) || (c =? LF_XC) then false else
     match m with
     | PLit =>
-      match classify c with
+      match classify_fx true c with
       | CNul => false
       | CPct => wf_go f' (PDir pd_init) args
       | _ => wf_go f' PLit args
@@ -72,7 +72,7 @@ Fixpoint wf_go (f : list Z) (m : pmode) (args : list arg) : bool :=
     | PDir d =>
       let '(a, args') := next_arg args in
       (zlen (p_acc d) + 2 <=? LF_MINI_FORMAT_STR_LEN) &&
-      match classify c with
+      match classify_fx true c with
       | CFlag => wf_go f' (PDir (pd_add d [c])) args
       | CDot => wf_go f' (PDir (mkP (p_acc d ++ [c]) (p_l d) true (p_plen d))) args
       | CDigit =>
@@ -80,8 +80,8 @@ Fixpoint wf_go (f : list Z) (m : pmode) (args : list arg) : bool :=
         wf_go f' (PDir (mkP (p_acc d ++ [c]) (p_l d) (p_prec d)
                             (if p_prec d then p_plen d * 10 + (c - 48) else p_plen d))) args
       | CStar =>
-        (zlen (p_acc d) + zlen (dec (to_signed (8 * LF_SIZEOF_INT) (arg_raw a))) + 2 <=? LF_MINI_FORMAT_STR_LEN) &&
-        wf_go f' (PDir (pd_add d (dec (to_signed (8 * LF_SIZEOF_INT) (arg_raw a))))) args'
+        (zlen (star_text true (p_acc d) (to_signed (8 * LF_SIZEOF_INT) (arg_raw a))) + 2 <=? LF_MINI_FORMAT_STR_LEN) &&
+        wf_go f' (PDir (pd_star d (to_signed (8 * LF_SIZEOF_INT) (arg_raw a)))) args'
       | CEll => wf_go f' (PDir (mkP (p_acc d ++ [c]) (p_l d + 1) (p_prec d) (p_plen d))) args
       | CZee | CTee | CJay => wf_go f' (PDir (mkP (p_acc d ++ [c]) 2 (p_prec d) (p_plen d))) args
       | CInt | CDbl | CChr | CPtr | CStr => wf_go f' PLit args'
